@@ -252,7 +252,9 @@ func (c *Conn) ping(ctx context.Context, p string) error {
 	case <-c.closed:
 		return net.ErrClosed
 	case <-ctx.Done():
-		return fmt.Errorf("failed to wait for pong: %w", ctx.Err())
+		err := fmt.Errorf("failed to wait for pong: %w", ctx.Err())
+		c.closeTransport()
+		return err
 	case <-pong:
 		return nil
 	}
@@ -288,7 +290,9 @@ func (m *mu) lock(ctx context.Context) error {
 	case <-m.c.closed:
 		return net.ErrClosed
 	case <-ctx.Done():
-		return fmt.Errorf("failed to acquire lock: %w", ctx.Err())
+		err := fmt.Errorf("failed to acquire lock: %w", ctx.Err())
+		m.c.closeTransport()
+		return err
 	case m.ch <- struct{}{}:
 		// To make sure the connection is certainly alive.
 		// As it's possible the send on m.ch was selected
